@@ -32,8 +32,36 @@ fn over(n: usize) -> bool {
 /// size of the request that was refused (0 = none)
 pub static REFUSED: AtomicUsize = AtomicUsize::new(0);
 
+thread_local! {
+    static PAUSED: Cell<u32> = const { Cell::new(0) };
+}
+
+/// While a `Pause` is alive the calling thread's allocations are not counted (used by the
+/// harness' own bookkeeping, e.g. the monitoring writer, so that it does not pollute the
+/// measurement of the receiver's heap).
+pub struct Pause;
+
+pub fn pause() -> Pause {
+    let _ = PAUSED.try_with(|p| p.set(p.get() + 1));
+    Pause
+}
+
+impl Drop for Pause {
+    fn drop(&mut self) {
+        let _ = PAUSED.try_with(|p| p.set(p.get().saturating_sub(1)));
+    }
+}
+
+#[inline]
+fn paused() -> bool {
+    PAUSED.try_with(|p| p.get() > 0).unwrap_or(false)
+}
+
 #[inline]
 fn add(n: usize) {
+    if paused() {
+        return;
+    }
     let _ = LIVE.try_with(|l| {
         let v = l.get() + n as isize;
         l.set(v);
@@ -52,6 +80,9 @@ fn add(n: usize) {
 
 #[inline]
 fn sub(n: usize) {
+    if paused() {
+        return;
+    }
     let _ = LIVE.try_with(|l| l.set(l.get() - n as isize));
 }
 
